@@ -101,6 +101,13 @@ impl<L: Language> RuleRegistration<L> {
     self.rewriters.insert(id, rewriter).expect("should work");
   }
 
+  pub(crate) fn verify_local_utils(&self) -> Result<(), crate::RuleSerializeError> {
+    for rule in self.local.0.values() {
+      rule.verify_util()?;
+    }
+    Ok(())
+  }
+
   pub(crate) fn get_local_util_vars(&self) -> HashSet<&str> {
     let mut ret = HashSet::new();
     let utils = &self.local.0;
